@@ -284,6 +284,6 @@ def c20(ctx):
     snaps = getattr(ctx.run, "snapshots", [])
     import canon
     for (si, obj, text) in snaps:
-        if canon.state(obj) != text:
+        if canon.state(obj) + "|" + repr(obj) != text:
             yield F("earlier-state-mutated", f"state recorded at step {si} changed afterwards", si)
             return
